@@ -42,6 +42,10 @@ func BuildChangeMap(commits []CommitMessage) map[string]map[string]int {
 			matches := logRegexp.FindStringSubmatch(message)
 			if len(matches) > 3 {
 				keyword := matches[1]
+				if keyword == "" {
+					// `: text` and `(scope): text` name no type
+					continue
+				}
 				//message := matches[3]
 
 				if _, ok := czMap[keyword]; !ok {
